@@ -366,6 +366,11 @@ func (l *RotateLogger) rotate() error {
 	_, err := os.Stat(l.filename)
 	if err == nil && len(l.backup) > 0 {
 		backupFilename := l.getBackupFilename()
+		// 备份名在当前文件开始时就已确定且只精确到秒：启动后一秒内就轮换过时，下一个备份名与上一个相同。
+		// 同名备份已存在时改用此刻的名字，绝不覆盖已有备份（其中的记录会全部丢失）。
+		if _, statErr := os.Stat(backupFilename); statErr == nil {
+			backupFilename = l.rule.BackupFilename()
+		}
 		err = os.Rename(l.filename, backupFilename)
 		if err != nil {
 			return err
